@@ -135,6 +135,10 @@ class C11R(SchedProp):
     trusted = C29.trusted
     unmodelled = C29.unmodelled + [
         '`cylc trigger` (group trigger): runs of kind trigw have no model prediction, they are judged on the real trace only',
+        'the try timers of an instance that is re-run in a later flow, over a restart: load_db_task_action_timers keys them by '
+        'cycle / name only, so after a restart the re-run proxy inherits the (possibly exhausted) retry count of the earlier '
+        'flow\'s run and fails for good where the uninterrupted run retries (seen as a model disagreement while building; '
+        'the setF runs use workflows without retry delays)',
     ]
     rule = ('generated integer-cycling workflows (2-6 tasks, 1-3 recurrences, AND/OR triggers, inter-cycle offsets, retries, '
             'optional/custom outputs, suicide and absolute triggers, runahead P0-P3) driven through the real Scheduler by a '
@@ -235,7 +239,9 @@ def gen_case(seed, kind):
     if kind == 'setF':
         # instances that already ran and left the pool are re-run in LATER flows (`cylc set --pre=all --flow=new / N`):
         # rows of one instance under several flow numbers, the instance active in the later flow at a stop
-        c = sgen.gen_case(seed, 'setany' if seed % 3 == 0 else 'set')
+        # (workflows without retry delays: after a restart the real scheduler reloads the try timers by cycle / name
+        # only, so a re-run inherits the retry count of the earlier flow's run - not part of the Sched3Set model)
+        c = sgen.gen_case(seed, 'setany' if seed % 3 == 0 else 'set', {'retries': False})
         c['id'] = f'setF{seed}'
         pol = c['policy']
         # (the stops come while such a re-run is running / failed / succeeded: policy p_stop_rerun; one generic stop)
